@@ -7,7 +7,8 @@ PROP_FILE = 'C11'
 
 def mons():
     return [M.m_terminates, M.m_limits,
-            lambda r: M.m_download_window(r, r.manager._config.max_in_memory_download_chunks)]
+            lambda r: M.m_download_window(r, r.manager._config.max_in_memory_download_chunks),
+            lambda r: M.m_window_capacity(r, r.manager._config.max_in_memory_download_chunks)]
 
 
 def specs(ctx):
@@ -28,6 +29,7 @@ def specs(ctx):
         if i % 3 == 0:
             ch = {'kind': 'pct', 'seed': rng.randrange(1 << 30), 'depth': 4}   # makes the lowest part the slowest
         out.append(dict(transfers=ts, cfg=cfg, chooser=ch))
+    out += sysrun.specs_shared_window(ctx, 400 if ctx.thorough() else 120)
     return out
 
 
